@@ -38,4 +38,8 @@ def obligations():
                     functions=['opus_multistream_decode_native'], tier=tier, budget=900, replay=False,
                     bounds='%d output channels (selector), 1..2 streams, any coupled count, any mapping (duplicates, 255), 1 sample, any packet bytes/len 0..8' % nc_,
                     stubs=['opus_decode_native: logging synth stub', 'opus_packet_parse_impl: any split', 'opus_decoder_get_size/init/ctl: trivial']))
+    L.append(Ob('H6.projection_matrix_export_ctl', 'C10_proj_ctl.c', ['src/mapping_matrix.c'], ['-DMAXR=4'], unwind=1,
+                unwindset=['harness:21', 'opus_projection_encoder_ctl:4'], functions=['opus_projection_encoder_ctl'], budget=600, replay=False,
+                stubs=['opus_multistream_encoder_ctl_va_list: not reached by the three matrix ctls'],
+                bounds='constructed projection encoder state: 1..3 channels, streams+coupled <= 3, stored demixing matrix of any size up to 4x4 with rows >= channels, any cells, any requested size'))
     return L
